@@ -14,7 +14,7 @@ func init() {
 		ID:    "C02",
 		Level: "exploration",
 		Rule: "inputs = atom catalogue, /repo testdata, llvm-stress programs, generated modules and, for each of them, W6 respellings (hex integers, unsigned-decimal spellings of negative integers, hex floats, redundantly quoted names, comments/blank lines, shuffled definitions); for every input x the parser accepts: y=print(parse x) must be accepted, print(parse y) must equal y byte for byte, and the object graphs of parse(x) and parse(y) must serialise identically (identity-bearing objects in bijection, the rest by value). " +
-			"llir-only: 27 hand-written inputs LLVM 14 rejects and the parser may accept (attribute-group spelling of the alignment in a function header, out-of-range and inexact decimal floats, hexadecimal doubles that are not values of half/float, operand or callee type text disagreeing with the definition, a named void call, out-of-range integer literals, repeated switch cases ...) go through the same three comparisons: the property quantifies over every input the parser accepts. " +
+			"llir-only: 35 hand-written inputs LLVM 14 rejects and the parser may accept (attribute-group spelling of the alignment in a function header, out-of-range and inexact decimal floats, hexadecimal doubles that are not values of half/float, operand or callee type text disagreeing with the definition, a named void call, out-of-range integer literals, repeated switch cases ...) go through the same three comparisons: the property quantifies over every input the parser accepts. " +
 			"non-trivial = an accepted input whose printed form differs from the input text (a normalisation happened); distinct by digest of x",
 		Gen:           genC02,
 		MinNontrivial: 100,
@@ -70,6 +70,16 @@ func c02LlirOnly(r *fw.Rec) {
 		"variadic-callee-type-text-disagrees":        "declare i32 @printf(i8*, ...)\ndefine i64 @f(i8* %s) {\n  %r = call i64 (i8*, ...) @printf(i8* %s)\n  ret i64 %r\n}\n",
 		"variadic-invoke-callee-type-text-disagrees": "declare i32 @pf(i8*, ...)\ndefine i64 @f(i8* %s) personality i8* null {\n  %r = invoke i64 (i8*, ...) @pf(i8* %s) to label %ok unwind label %bad\nok:\n  ret i64 %r\nbad:\n  %l = landingpad { i8*, i32 } cleanup\n  ret i64 0\n}\n",
 		"variadic-callee-param-text-disagrees":       "declare i32 @printf(i8*, ...)\ndefine i32 @f(i16* %s) {\n  %r = call i32 (i16*, ...) @printf(i16* %s)\n  ret i32 %r\n}\n",
+		// a full function type written in a call that disagrees with the arguments
+		"call-signature-disagrees-with-argument-type":  "declare void @g(i64)\ndefine void @f() {\n  call void (i64) @g(i32 1)\n  ret void\n}\n",
+		"call-signature-disagrees-with-argument-count": "declare void @g(i64)\ndefine void @f() {\n  call void (i64) @g()\n  ret void\n}\n",
+		"call-signature-disagrees-local-callee":        "define void @f(void (i64)* %fp) {\n  call void (i64) %fp(i32 1)\n  ret void\n}\n",
+		"invoke-signature-disagrees-with-argument":     "declare i32 @g(i64)\ndefine i32 @f() personality i8* null {\n  %r = invoke i32 (i64) @g(i32 1) to label %ok unwind label %bad\nok:\n  ret i32 %r\nbad:\n  %l = landingpad { i8*, i32 } cleanup\n  ret i32 0\n}\n",
+		"call-signature-disagrees-inline-asm":          "define void @f() {\n  call void (i64) asm \"nop\", \"r\"(i32 1)\n  ret void\n}\n",
+		// the type written in front of a global variable disagrees with its definition
+		"global-operand-type-text-disagrees":         "@g = addrspace(1) global [2 x i32] zeroinitializer\ndefine i32* @f() {\n  %p = getelementptr [2 x i32], [2 x i32]* @g, i32 0, i32 1\n  ret i32* %p\n}\n",
+		"global-operand-type-text-disagrees-in-load": "@g = global i64 0\ndefine i32 @f() {\n  %v = load i32, i32* @g\n  ret i32 %v\n}\n",
+		"global-operand-type-text-disagrees-in-init": "@g = global i64 0\n@p = global i32* @g\n",
 		// an alias whose typed aliasee disagrees with the content type of the alias
 		"alias-typed-cast-aliasee-disagrees":   "@g = global i16 0\n@a = alias i8, i32* bitcast (i16* @g to i32*)\n",
 		"alias-typed-gep-aliasee-disagrees":    "@g = global [2 x i16] zeroinitializer\n@a = alias i8, i16* getelementptr ([2 x i16], [2 x i16]* @g, i32 0, i32 1)\n",
